@@ -15,7 +15,7 @@ Driver for C10. Case lines (see harness/c10/main.go):
       follow-ups: the same chain with every handler passing through; then the route [99: W] behind
       the first <global> handlers (router-global middleware; they have no behaviour there: return).
 
-  <id> T <waitH> <waitL> <custom> <budget ms, 0 = 1h> <prog: n hact…> => <status> <body> <escaped> <releasedEarly> <hpanicked> <recovered> <follow>
+  <id> T <waitH> <waitL> <custom> <budget ms, 0 = 1h> <prog: n hact…> => <status> <body> <escaped> <releasedEarly> <hpanicked> <recovered> <claimed: the timeout handler was called> <follow>
       waitL = the timeout middleware's logger waits (inside its Warn call) for the handler's signal
       hact = W | D | X | aC | aL | aE | aT | sH | aR | hold | P<v> | G<n>   (the timed chain, flattened; G<n> = Next's loop test)
 
@@ -179,11 +179,11 @@ def stepT (id : String) (inp obs : List String) : String :=
   let pIn : P (Hooks × Bool × Nat × List HAct) := do
     let w ← bool; let wl ← bool; let c ← bool; let budget ← nat; let p ← list pHAct
     pure ({ waitH := w, waitL := wl }, c, budget, p)
-  let pOut : P (Nat × List Nat × Option Nat × Bool × Bool × Bool × Nat) := do
-    let st ← nat; let b ← list nat; let e ← opt nat; let re ← bool; let hp ← bool; let rc ← bool; let f ← nat
-    pure (st, b, e, re, hp, rc, f)
+  let pOut : P (Nat × List Nat × Option Nat × Bool × Bool × Bool × Bool × Nat) := do
+    let st ← nat; let b ← list nat; let e ← opt nat; let re ← bool; let hp ← bool; let rc ← bool; let cl ← bool; let f ← nat
+    pure (st, b, e, re, hp, rc, cl, f)
   match runP pIn inp, runP pOut obs with
-  | some (waitH, _custom, budget, prog), some (st, b, e, re, hp, rc, f) =>
+  | some (waitH, _custom, budget, prog), some (st, b, e, re, hp, rc, cl, f) =>
     let fuel := 4 * prog.length + 16
     -- under a real budget the middleware's own timer may fire once everything else is blocked
     let sched := if budget > 0 then fairT waitH else fair waitH
@@ -193,14 +193,14 @@ def stepT (id : String) (inp obs : List String) : String :=
     if obsOf s1 != obsOf s2 || s1.rpc != .returned || s2.rpc != .returned then
       s!"{id} bad-case the program leaves the order of events open (or deadlocks) in the model"
     else
-      let mObs := (tStatus s1.status, s1.body, s1.releasedEarly, s1.panicChan.isSome, s1.recovered.isSome, (229 : Nat))
+      let mObs := (tStatus s1.status, s1.body, s1.releasedEarly, s1.panicChan.isSome, s1.recovered.isSome, s1.timedOut, (229 : Nat))
       let body := b.map tChunk
-      let iObs := (st, body, re, hp, rc, f)
+      let iObs := (st, body, re, hp, rc, cl, f)
       let io : TObs := { status := (if st == 408 then some .t408 else if st == 500 then some .rec500 else if st == 200 then none else some .h),
-                         body := body, escaped := e.isSome, releasedEarly := re, hPanicked := hp, recovered := rc }
+                         body := body, escaped := e.isSome, releasedEarly := re, hPanicked := hp, recovered := rc, claimed := cl }
       let chs : Timeout.Chunk → String | .h => "7" | .t408 => toString timeoutChunk | .rec500 => toString recChunk | .other => "999999"
       verdict id (mObs == iObs && e.isNone) (timeoutOK io && f == 229) "-"
-        s!"{tStatus s1.status} {s1.body.length} {" ".intercalate (s1.body.map chs)} 0 {if s1.releasedEarly then 1 else 0} {if s1.panicChan.isSome then 1 else 0} {if s1.recovered.isSome then 1 else 0} 229"
+        s!"{tStatus s1.status} {s1.body.length} {" ".intercalate (s1.body.map chs)} 0 {if s1.releasedEarly then 1 else 0} {if s1.panicChan.isSome then 1 else 0} {if s1.recovered.isSome then 1 else 0} {if s1.timedOut then 1 else 0} 229"
   | _, _ => s!"{id} bad-case"
 
 open Rivaas.Timeout in
@@ -236,7 +236,7 @@ def stepO (id : String) (inp obs : List String) : String :=
       let body := b.map tChunk
       let iObs := (dl, bud, calls, st, body, hp, rc)
       let io : TObs := { status := (if st == 408 then some .t408 else if st == 500 then some .rec500 else if st == 200 then none else some .h),
-                         body := body, escaped := e.isSome, releasedEarly := false, hPanicked := hp, recovered := rc }
+                         body := body, escaped := e.isSome, releasedEarly := false, hPanicked := hp, recovered := rc, claimed := body.contains .t408 }
       let chs : Timeout.Chunk → String | .h => "7" | .t408 => toString timeoutChunk | .rec500 => toString recChunk | .other => "999999"
       verdict id (mObs == iObs && e.isNone) (timeoutOK io && (skipSpec opts path == !dl)) "-"
         s!"{if skipped then 0 else 1} {mBud} {mCalls} {tStatus s.status} {s.body.length} {" ".intercalate (s.body.map chs)} 0 {if s.panicChan.isSome then 1 else 0} {if s.recovered.isSome then 1 else 0}"
